@@ -193,7 +193,9 @@ impl Check for C09 {
             }
             (RealOutcome::BuildFailed, None) => {
                 if model.length_override.is_none() && body > 65535 {
-                    st.hit("probe:build_over_65535_rejected");
+                    // (whether the overflow is reported by build or already by the write that
+                    // crosses the limit is not the property's business)
+                    st.hit("probe:body_over_65535_not_built");
                 } else {
                     // the property speaks about sequences that succeed; counted, not flagged
                     st.hit("history_build_failed_unexpectedly");
@@ -203,6 +205,9 @@ impl Check for C09 {
                 // an early Err from the Writer's size guard once the buffer exceeds a
                 // full-size header is allowed and simply ends the history
                 st.hit("history_write_failed");
+                if model.length_override.is_none() && body > 65535 {
+                    st.hit("probe:body_over_65535_not_built");
+                }
             }
         }
         out
@@ -214,7 +219,7 @@ impl Check for C09 {
             "probe:payload_total_65535",
             "probe:payload_total_65536",
             "probe:value_over_65535_rejected",
-            "probe:build_over_65535_rejected",
+            "probe:body_over_65535_not_built",
             "probe:reserve_after_write",
             "probe:build_without_any_write",
             "probe:history_built",
